@@ -22,10 +22,12 @@ a3fb5a0 rebase.Parse returned the one-element list `[""]` there (`strings.Split(
 `wfRec` forbids the one list that cannot be written, `[""]` (its text is the empty line, which denotes
 no isoschizomers); empty names next to others (`X,,Y`) are kept as written.
 
-A `<7>` letter that the table does not name is decoded to the EMPTY name, one list entry per letter
-(READING: the property says "decoded to the supplier named for that letter in the file's own supplier
-table"; for a letter no line of the table names there is no such supplier, and the empty name keeps the
-positions of the other letters) — `supplierOf`; letters need not be ASCII.
+A `<7>` letter that no line of the table names is NOT CONSTRAINED BY THE PROPERTY ("decoded to the
+supplier named for that letter in the file's own supplier table" says nothing about it).  The code
+writes the empty name for it, one list entry per letter; `supplierOf` / `expectedMap` and the theorem
+state exactly that, as a fact about the code.  The judge demands only the names of the letters the
+table names, in order; for an unnamed letter it accepts any one string or no entry.  Letters need not
+be ASCII.
 -/
 namespace PolyVerif.Spec.RebaseListing
 open PolyVerif PolyVerif.LineText PolyVerif.Rebase
